@@ -658,6 +658,8 @@ class Subject:
                 shutil.rmtree(dst)
             if os.path.exists(p):
                 os.replace(p, dst)
+                if mt is not None and os.path.exists(dst):
+                    os.utime(dst, ns=(mt, mt))      # `mv` + `touch`: the renamed file/directory gets a fresh stamp
             ddir = os.path.dirname(dst)
             if dmt is not None and ddir != parent:
                 os.utime(ddir, ns=(dmt, dmt))
